@@ -222,6 +222,32 @@ def gen_extreme_scale_pair(rng):
     raise RuntimeError("no pair generated")
 
 
+def gen_twice_other_target_pair(rng):
+    """a selector object that already selected on (X, y_first) selects on (X, y) where a feature is an
+    exact copy of y: the copy must be returned and the result must equal a fresh selector's"""
+    for _ in range(50):
+        a = c14.gen_case(rng)
+        nf = len(a["quanti"]) + len(a["quali"])
+        if not 0 < a["n_best"] <= nf + 1 or a["n"] < 12:
+            continue
+        first_y = a["y"]
+        y = c14.gen_y(rng, a["n"], a["task"])
+        a = copy.deepcopy(a)
+        a["y"] = encs(y)
+        if not any(isinstance(v, str) for v in y) and rng.random() < 0.7:
+            a["quanti"].append(["tq", encs([float(v) for v in y])])
+            must = ["tq"]
+        else:
+            labs = sorted({str(v) for v in y})
+            mp = {l: "T%d" % k for k, l in enumerate(labs)}
+            a["quali"].append(["ts", encs([mp[str(v)] for v in y])])
+            must = ["ts"]
+        ren = {n: n for n, _ in a["quanti"] + a["quali"]}
+        return {"kind": "twice_other_target", "a": a, "b": copy.deepcopy(a), "ren": ren, "must": must,
+                "first_y": first_y}
+    raise RuntimeError("no pair generated")
+
+
 def gen_yates_pair(rng):
     """exact (relabelled) copy of a BINARY target among qualitative features + a finer feature nested
     in the classes (+ noise), n_best = 1 or below the number of features, several class balances:
@@ -332,12 +358,23 @@ class C15(Prop):
                 + [gen_yates_pair(rng) for _ in range(12 * ns)]
                 + [gen_extreme_scale_pair(rng) for _ in range(24 * ns)]
                 + [gen_special_pair(rng, "inf") for _ in range(16 * ns)]
-                + [gen_pair(rng, "twice") for _ in range(16 * ns)])
+                + [gen_pair(rng, "twice") for _ in range(16 * ns)]
+                + [gen_twice_other_target_pair(rng) for _ in range(24 * ns)])
 
     def search_cases(self, rng, neighbours, rnd):
         return [gen_pair(rng) for _ in range(50)]
 
     def run_impl(self, case):
+        if case["kind"] == "twice_other_target":
+            # ONE object selects on (X, y_first) then on (X, y): run a = that second call, run b = a
+            # fresh selector on (X, y); they must agree and the copy of y must be returned
+            first = dict(case["a"])
+            first["y"] = case["first_y"]
+            first["again"] = {"y": case["a"]["y"]}
+            o = c14.run_selector(first)
+            oa = o.get("again")
+            ob = c14.run_selector(case["b"])
+            return {"a": oa if oa is not None else ob, "b": ob, "first": {"sel": o["sel"], "err": o["err"]}}
         if case["kind"] == "twice":  # the SAME selector object selects twice on the same input
             a = dict(case["a"])
             a["again"] = {"y": a["y"]}
@@ -361,8 +398,12 @@ class C15(Prop):
         elif oa["err"] is None:
             exp = [case["ren"][f] for f in oa["sel"]]
             if exp != ob["sel"] and not ties and not free:
-                fails.append(("different", f"{case['kind']}: original run returns {oa['sel']} (renamed: {exp}), "
-                                           f"re-encoded run returns {ob['sel']}"))
+                if case["kind"] in ("twice", "twice_other_target"):
+                    fails.append(("different", f"{case['kind']}: a selector object that already selected on another "
+                                               f"input returns {oa['sel']}, a fresh selector returns {ob['sel']}"))
+                else:
+                    fails.append(("different", f"{case['kind']}: original run returns {oa['sel']} (renamed: {exp}), "
+                                               f"re-encoded run returns {ob['sel']}"))
         sides = [("a", case["a"], ta, oa, list(case["must"]))]
         if free:
             sides.append(("b", case["b"], tb, ob, [case["ren"][f] for f in case["must"]]))
